@@ -71,7 +71,7 @@ fn spec(t: Tier) -> Spec {
     Spec {
         id: "C16",
         level: "exploration",
-        rule: format!("components: literal x, literal é, escapes \\a \\b \\f \\n \\r \\t \\v \\\\ \\0 \\101, %%, and each directive of p f h H P d s n i U G m y Y l with flag (none, -) x width (none, 1, 9): 103 components. Every format of <= {all} components on every configuration (9 starting-point spellings: r ./r r/ r// r/. . ../w/r absolute link-to-dir x -P -H -L) and of <= {deep} components on all 27 configurations in thorough (quick: on one, r/ under -H), rendered by the real find over a sandbox with every entry kind (regular, setuid, hard links, empty/non-empty/sticky/setgid directories, fifo, socket, links to each, dangling, outside, at depth 0..2, owners 0/1/54321/2^31) in -sorted order, several formats per run as consecutive -printf actions; the whole output must equal, byte for byte, the independent renderer's (values from lstat()/stat()/readlink() of the selected record, padding left/right to the width, never truncated, literals verbatim, nothing appended). A mismatching batch is bisected to the format and to the component. -fprintf FILE FORMAT is run for every single-component format (every third FILE exists beforehand with 20 000 bytes of other content); mount-point slice: %i %n %s %m %U %y on a tree with a tmpfs mounted inside it (the directory entry of a mount point carries the covered directory's inode number); wide-field slice: every directive and flag with widths 10, 16, 100, 255, 256, 1000 (and 65535 for %d, %y) followed by a literal, on every configuration. non-trivial = format containing a directive", all = t.pick(2, 2), deep = 3),
+        rule: format!("components: literal x, literal é, escapes \\a \\b \\f \\n \\r \\t \\v \\\\ \\0 \\101, %%, and each directive of p f h H P d s n i U G m y Y l with flag (none, -) x width (none, 1, 9): 103 components. Every format of <= {all} components on every configuration (9 starting-point spellings: r ./r r/ r// r/. . ../w/r absolute link-to-dir x -P -H -L) and of <= {deep} components on all 27 configurations in thorough (quick: on one, r/ under -H), rendered by the real find over a sandbox with every entry kind (regular, setuid, hard links, empty/non-empty/sticky/setgid directories, fifo, socket, links to each, dangling, outside, at depth 0..2, owners 0/1/54321/2^31) in -sorted order, several formats per run as consecutive -printf actions; the whole output must equal, byte for byte, the independent renderer's (values from lstat()/stat()/readlink() of the selected record, padding left/right to the width, never truncated, literals verbatim, nothing appended). A mismatching batch is bisected to the format and to the component. two -fprintf and one -fprint on the SAME file (renderings follow one another per entry); -fprintf FILE FORMAT is run for every single-component format (every third FILE exists beforehand with 20 000 bytes of other content); mount-point slice: %i %n %s %m %U %y on a tree with a tmpfs mounted inside it (the directory entry of a mount point carries the covered directory's inode number); wide-field slice: every directive and flag with widths 10, 16, 100, 255, 256, 1000 (and 65535 for %d, %y) followed by a literal, on every configuration. non-trivial = format containing a directive", all = t.pick(2, 2), deep = 3),
         bound: json!({"components": 103, "max_components_all_configs": 2, "max_components_deep_configs": 3, "configs": 27}),
         assumptions: vec![
             "not judged (entries filtered out of the run by -path): %Y and %l on a link the follow mode resolves, %Y on a dangling link; %h when the part before the last component is empty ('/x') or itself ends in a slash ('r//x')".into(),
@@ -545,6 +545,26 @@ fn fprintf_slice(ctx: &mut Ctx, cfg: &Cfg, comps: &[Comp]) {
     let outdir = ctx.sbx.join("fp");
     let _ = crate::sandbox::force_remove(&outdir);
     std::fs::create_dir(&outdir).unwrap();
+    // two (three) actions writing to the SAME file: each entry's renderings follow one another, none
+    // overwrites another's
+    {
+        let file = outdir.join("shared").to_string_lossy().to_string();
+        let _ = std::fs::write(&file, vec![b'Z'; 3000]);
+        let argv = [format!("-{}", cfg.follow), cfg.root.to_string(), "-sorted".into(), "-fprintf".into(), file.clone(), "A:%p\\n".into(), "-fprintf".into(), file.clone(), "B:%d\\n".into(), "-fprint".into(), file.clone()];
+        let args: Vec<&str> = argv.iter().map(|s| s.as_str()).collect();
+        let got = run_find(&args);
+        let content = std::fs::read(&file).unwrap_or_default();
+        let expected: Vec<u8> = cfg.ents.iter().flat_map(|e| format!("A:{}\nB:{}\n{}\n", e.path, e.depth, e.path).into_bytes()).collect();
+        ctx.rep.evaluations += cfg.ents.len() as u64;
+        ctx.rep.count("fprintf_shared_file_runs", 1);
+        if content != expected || got.code != Ok(0) {
+            ctx.rep.violation(
+                &format!("C16 several -fprintf/-fprint actions on the same file overwrite one another [-{} starting point {}]", cfg.follow, root_class(cfg.root)),
+                format!("find {:?}\nexpected file {}\nactual file   {}\nstatus {:?}", argv, show(&expected), show(&content), got.code),
+                json!({"prop":"C16","root":if cfg.root.starts_with('/') { "<abs>/w/r" } else { cfg.root },"follow":cfg.follow.to_string(),"shared_file":true}),
+            );
+        }
+    }
     let single: Vec<Vec<&Comp>> = comps.iter().map(|c| vec![c, &comps[0]]).collect();
     for (k, f) in single.iter().enumerate() {
         if cfg.ents.iter().any(|e| render(f, e, cfg.root).is_none()) {
@@ -595,6 +615,14 @@ fn unicode_slice(ctx: &mut Ctx, comps: &[Comp]) {
 }
 
 fn replay(case: &Value, ctx: &mut Ctx) -> Option<String> {
+    if case["shared_file"] == true {
+        let w = build(ctx).ok()?;
+        let root = case["root"].as_str()?.replace("<abs>/w", &w);
+        let follow = case["follow"].as_str()?.chars().next()?;
+        let cfg = Cfg { root: &root, follow, ents: walk(&root, follow) };
+        fprintf_slice(ctx, &cfg, &components()[..1]);
+        return ctx.rep.violations.keys().next().cloned();
+    }
     if case["mount"] == true {
         mount_point_slice(ctx);
         return ctx.rep.violations.keys().next().cloned();
